@@ -97,13 +97,16 @@ pub fn main(args: &[String]) {
             rep.distinct += 1;
             return;
         }
-        // soundness of the output: every object of the model is present with its payload, every link leads to its target
+        // soundness of the output, whatever the layout: starting from the root at 0, every object holds its payload and every
+        // link, read with its width, base and bias, leads to the start of (a byte-for-byte copy of) its target
         let objs = want["objects"].as_array().unwrap();
         let total = want["total"].as_u64().unwrap() as usize;
-        let mut sound = bytes.len() == total;
-        let mut exact = true;
-        for o in objs {
-            let (pos, len, fill) = (o["pos"].as_u64().unwrap() as usize, o["len"].as_u64().unwrap() as usize, o["fill"].as_u64().unwrap() as u8);
+        fn holds(bytes: &[u8], pos: usize, k: usize, objs: &[Value], depth: usize) -> bool {
+            if depth > 8 {
+                return true;
+            }
+            let o = &objs[k];
+            let (len, fill) = (o["len"].as_u64().unwrap() as usize, o["fill"].as_u64().unwrap() as u8);
             let links = o["links"].as_array().unwrap();
             for i in 0..len {
                 let in_link = links.iter().any(|l| {
@@ -111,19 +114,38 @@ pub fn main(args: &[String]) {
                     i >= p && i < p + l["width"].as_u64().unwrap() as usize
                 });
                 if !in_link && bytes.get(pos + i) != Some(&fill) {
-                    sound = false;
+                    return false;
                 }
             }
             for l in links {
+                let (p, w) = (l["pos"].as_u64().unwrap() as usize, l["width"].as_u64().unwrap() as usize);
+                let Some(v) = be(bytes, pos + p, w) else { return false };
+                let base = match l["whence"].as_str().unwrap() {
+                    "head" => pos,
+                    "tail" => pos + len,
+                    _ => 0,
+                };
+                let target = base + v as usize + l["bias"].as_u64().unwrap() as usize;
+                if !holds(bytes, target, l["to"].as_u64().unwrap() as usize, objs, depth + 1) {
+                    return false;
+                }
+            }
+            true
+        }
+        // the root is the last object of the model (it is packed last) and the first of the output
+        let sound = bytes.len() <= total && (objs.is_empty() && bytes.len() == total || !objs.is_empty() && holds(&bytes, 0, objs.len() - 1, objs, 0));
+        let mut exact = bytes.len() == total;
+        for o in objs {
+            let pos = o["pos"].as_u64().unwrap() as usize;
+            for l in o["links"].as_array().unwrap() {
                 let (p, w, v) = (l["pos"].as_u64().unwrap() as usize, l["width"].as_u64().unwrap() as usize, l["value"].as_u64().unwrap());
                 if be(&bytes, pos + p, w) != Some(v) {
                     exact = false;
-                    sound = false; // with one layout possible (objects are placed in reverse packing order) a different value is a wrong one
                 }
             }
         }
         if !sound {
-            return rep.violation(&format!("the serialized bytes are not the specified layout ({} bytes, specification {total}): a payload byte or an offset is wrong", bytes.len()), case);
+            return rep.violation(&format!("the serialized bytes are not sound ({} bytes, specification {total}): an object's payload is damaged or a link does not lead to its target", bytes.len()), case);
         }
         if !exact {
             rep.add("layout_differs", 1);
